@@ -42,7 +42,7 @@ struct Builder {
 impl Builder {
     fn cond_text(&mut self, t: bool) -> String {
         self.spell = self.spell.wrapping_mul(6364136223846793005).wrapping_add(1442695040888963407);
-        let k = (self.spell >> 33) % 10;
+        let k = (self.spell >> 33) % 14;
         let (one, zero) = ("T1", "T0");
         match (k, t) {
             (0, true) => "1".into(),
@@ -63,6 +63,15 @@ impl Builder {
             (7, false) => format!("!{} == 1", one),
             (8, true) => "0 == 0".into(),
             (8, false) => "1 == 0".into(),
+            // values other than 0 and 1: any non-zero value holds, == compares values
+            (10, true) => "T2".into(),
+            (10, false) => "!T2".into(),
+            (11, true) => "T2 == 2".into(),
+            (11, false) => "T2 == 3".into(),
+            (12, true) => "2".into(),
+            (12, false) => "T2 == T3".into(),
+            (13, true) => "!T2 == 0".into(),
+            (13, false) => "!T2 == 1".into(),
             (_, true) => format!("{} == D1", one),
             (_, false) => format!("{} == D0", one),
         }
@@ -132,6 +141,8 @@ fn new_builder(tag: &str, idx: u64, max_depth: usize) -> Builder {
     };
     b.lines.push("#define T1 1".into());
     b.lines.push("#define T0 0".into());
+    b.lines.push("#define T2 2".into());
+    b.lines.push("#define\tT3\t3".into());
     b.lines.push("#define DEF_EMPTY".into());
     b.lines.push("#define FMAC(a) (a)".into());
     for k in 0..4 {
@@ -353,7 +364,7 @@ impl Monitor for C07 {
     fn rule(&self) -> String {
         "generated directive trees with their ISO meaning; every region holds a marker declaration and possibly a #define probe, an #undef of a \
          macro defined at the top, an #include of a marker header, or an #error. Conditions stay inside the property's domain: literal 0/1, macros \
-         valued 0/1 defined in the source or by -D, defined-but-empty / undefined macros for #ifdef/#ifndef, ! and ==, in 10 spellings. Enumerated core \
+         valued 0/1 defined in the source or by -D, defined-but-empty / undefined macros for #ifdef/#ifndef, ! and ==, in 14 spellings (values 0, 1, 2, 3: any non-zero value holds, == compares values). Enumerated core \
          (exhaustive): every group shape (if | if-else | if-elif | if-elif-else | if-elif-elif-else) x every truth assignment x first-branch form \
          (#if, #ifdef, #ifndef) with an inner group of every shape and truth assignment nested in each of the first four regions. Random pool: \
          sequences of 1-4 groups nested to depth 6. Observed: marker names among CompilerState's variables; the Err and line of #error. \
